@@ -1071,6 +1071,9 @@ package lisp
 // values cannot touch a sealed one.  `sealedKinds` is the part of the
 // representation invariant they rely on.
 //@ typeinv LVal sealedKinds
+// The argument list a builtin receives is a header built for this call (by
+// evalSExprCells or bind), never a parsed node: part of the LBuiltin boundary.
+//@ pred perCallArgs(a) = !a.sealed
 //@ pred sealedKinds(v) = v.sealed ==> (v.Type == LSExpr || v.Type == LQuote || v.Type == LSymbol || v.Type == LQSymbol || v.Type == LString || v.Type == LInt || v.Type == LFloat)
 
 //@ func (*LVal).SetCallStack
